@@ -196,10 +196,10 @@ def run_fjob(args):
 
 def store_jobs(tier, rnd):
     """TLC: states of CifStore with every enabled call and its predicted result"""
-    configs = [("base", dict(MaxHist=3), 0), ("loops", dict(SCRIPT="ScriptLoop1", MaxHist=1, NAMES='{"_x", "_X", "_y", "_z", "bad"}', MaxNames=2, MaxPkt=2, MaxLast=3, MaxId=2), 1),
+    configs = [("base", dict(MaxHist=3, VALS='{"u", "s1", "T"}'), 0), ("loops", dict(SCRIPT="ScriptLoop1", MaxHist=1, NAMES='{"_x", "_X", "_y", "_z", "bad"}', MaxNames=2, MaxPkt=2, MaxLast=3, MaxId=2, PVALS='{"s1", "s2", "L"}', VALS='{"u", "s1", "L"}'), 1),
                ("nest", dict(SCRIPT="ScriptNest", MaxHist=1, MaxId=3, CSLOTS="MCCSlots2"), 2)]
     if tier != "quick":
-        configs = [("base", dict(MaxHist=4), 0), ("loops", dict(SCRIPT="ScriptLoop", MaxHist=2, NAMES='{"_x", "_X", "_y", "_z", "bad"}', MaxNames=2, MaxPkt=2, MaxLast=4, MaxId=2), 1),
+        configs = [("base", dict(MaxHist=4, VALS='{"u", "s1", "T"}'), 0), ("loops", dict(SCRIPT="ScriptLoop", MaxHist=2, NAMES='{"_x", "_X", "_y", "_z", "bad"}', MaxNames=2, MaxPkt=2, MaxLast=4, MaxId=2, PVALS='{"s1", "s2", "L"}', VALS='{"u", "s1", "L"}'), 1),
                    ("nest", dict(SCRIPT="ScriptNest", MaxHist=2, MaxId=3, CSLOTS="MCCSlots2"), 2)]
     per_class = 1 if tier == "quick" else 6
     jobs, covs = [], []
@@ -217,7 +217,8 @@ def store_jobs(tier, rnd):
                 e = c["e"]
                 if e.get("stale"):
                     continue        # calls through handles of vanished objects: best effort only, nothing to hold a fault variant to
-                shape = (e["op"], e.get("rc"), c["same"], len(e.get("names", [])), len(e.get("packet", [])), bool(o["s"]["tx"].get(e.get("cif", "c1"))) if isinstance(o["s"]["tx"], dict) else False)
+                vkinds = tuple(sorted({x[1] for x in e.get("packet", [])} | ({e["v"]} if "v" in e else set())))     # value tokens: lists / tables are serialised (more allocations, other failure paths)
+                shape = (e["op"], e.get("rc"), c["same"], len(e.get("names", [])), len(e.get("packet", [])), bool(o["s"]["tx"].get(e.get("cif", "c1"))) if isinstance(o["s"]["tx"], dict) else False, vkinds)
                 classes[shape].append((o["h"], o["s"], e, c["s2"], c["same"]))
         cleanup(wd)
         for shape in sorted(classes, key=lambda x: json.dumps(x)):
@@ -256,7 +257,9 @@ class VFJob:
         tc = cv.to_cmds(self.e)
         c.append(dict(tc[0], fail_at=k, fail_kinds=kinds))
         it = len(c) - 1
-        self._f1 = cv.final_cmds(self.s)
+        # after the failed call only what the caller OWNS is inspected (roots, the packet): an interior reference into an
+        # object the failed call was allowed to change is not an owned object and may be gone
+        self._f1 = [x for x in cv.final_cmds(self.s) if x[1][0] != "ref"]
         self._f2 = cv.final_cmds(self.s2)
         ir = None
         if k > 0:
